@@ -3,11 +3,159 @@ import BlockCiphers.Proofs.SerpentSpec
 import BlockCiphers.Proofs.TwofishSpec
 import BlockCiphers.Proofs.Cast6Spec
 import BlockCiphers.Proofs.Serpent
+import BlockCiphers.Proofs.GenFuncsSerpent
 /-
 C08 — Serpent, Twofish and CAST-256 conform, including variable key sizes
 GENERATED statement file (tools/gen_thm.py): every theorem below restates, verbatim, a theorem of a Proofs/ module
 and is proved by applying it.  ONLY property theorems and non-vacuity examples live in Thm/.
 -/
+
+namespace BC.GenFuncs.Serpent
+open BC.Gen.Fn
+theorem C08.src_serpent_sbox_e0_eq (w : BC.Serpent.Words) :
+    serpent_sbox_e0 w.w0 w.w1 w.w2 w.w3 = tup (BC.Serpent.sboxE0 w) :=
+  _root_.BC.GenFuncs.Serpent.sbox_e0_eq w
+end BC.GenFuncs.Serpent
+
+namespace BC.GenFuncs.Serpent
+open BC.Gen.Fn
+theorem C08.src_serpent_sbox_e1_eq (w : BC.Serpent.Words) :
+    serpent_sbox_e1 w.w0 w.w1 w.w2 w.w3 = tup (BC.Serpent.sboxE1 w) :=
+  _root_.BC.GenFuncs.Serpent.sbox_e1_eq w
+end BC.GenFuncs.Serpent
+
+namespace BC.GenFuncs.Serpent
+open BC.Gen.Fn
+theorem C08.src_serpent_sbox_e2_eq (w : BC.Serpent.Words) :
+    serpent_sbox_e2 w.w0 w.w1 w.w2 w.w3 = tup (BC.Serpent.sboxE2 w) :=
+  _root_.BC.GenFuncs.Serpent.sbox_e2_eq w
+end BC.GenFuncs.Serpent
+
+namespace BC.GenFuncs.Serpent
+open BC.Gen.Fn
+theorem C08.src_serpent_sbox_e3_eq (w : BC.Serpent.Words) :
+    serpent_sbox_e3 w.w0 w.w1 w.w2 w.w3 = tup (BC.Serpent.sboxE3 w) :=
+  _root_.BC.GenFuncs.Serpent.sbox_e3_eq w
+end BC.GenFuncs.Serpent
+
+namespace BC.GenFuncs.Serpent
+open BC.Gen.Fn
+theorem C08.src_serpent_sbox_e4_eq (w : BC.Serpent.Words) :
+    serpent_sbox_e4 w.w0 w.w1 w.w2 w.w3 = tup (BC.Serpent.sboxE4 w) :=
+  _root_.BC.GenFuncs.Serpent.sbox_e4_eq w
+end BC.GenFuncs.Serpent
+
+namespace BC.GenFuncs.Serpent
+open BC.Gen.Fn
+theorem C08.src_serpent_sbox_e5_eq (w : BC.Serpent.Words) :
+    serpent_sbox_e5 w.w0 w.w1 w.w2 w.w3 = tup (BC.Serpent.sboxE5 w) :=
+  _root_.BC.GenFuncs.Serpent.sbox_e5_eq w
+end BC.GenFuncs.Serpent
+
+namespace BC.GenFuncs.Serpent
+open BC.Gen.Fn
+theorem C08.src_serpent_sbox_e6_eq (w : BC.Serpent.Words) :
+    serpent_sbox_e6 w.w0 w.w1 w.w2 w.w3 = tup (BC.Serpent.sboxE6 w) :=
+  _root_.BC.GenFuncs.Serpent.sbox_e6_eq w
+end BC.GenFuncs.Serpent
+
+namespace BC.GenFuncs.Serpent
+open BC.Gen.Fn
+theorem C08.src_serpent_sbox_e7_eq (w : BC.Serpent.Words) :
+    serpent_sbox_e7 w.w0 w.w1 w.w2 w.w3 = tup (BC.Serpent.sboxE7 w) :=
+  _root_.BC.GenFuncs.Serpent.sbox_e7_eq w
+end BC.GenFuncs.Serpent
+
+namespace BC.GenFuncs.Serpent
+open BC.Gen.Fn
+theorem C08.src_serpent_sbox_d0_eq (w : BC.Serpent.Words) :
+    serpent_sbox_d0 w.w0 w.w1 w.w2 w.w3 = tup (BC.Serpent.sboxD0 w) :=
+  _root_.BC.GenFuncs.Serpent.sbox_d0_eq w
+end BC.GenFuncs.Serpent
+
+namespace BC.GenFuncs.Serpent
+open BC.Gen.Fn
+theorem C08.src_serpent_sbox_d1_eq (w : BC.Serpent.Words) :
+    serpent_sbox_d1 w.w0 w.w1 w.w2 w.w3 = tup (BC.Serpent.sboxD1 w) :=
+  _root_.BC.GenFuncs.Serpent.sbox_d1_eq w
+end BC.GenFuncs.Serpent
+
+namespace BC.GenFuncs.Serpent
+open BC.Gen.Fn
+theorem C08.src_serpent_sbox_d2_eq (w : BC.Serpent.Words) :
+    serpent_sbox_d2 w.w0 w.w1 w.w2 w.w3 = tup (BC.Serpent.sboxD2 w) :=
+  _root_.BC.GenFuncs.Serpent.sbox_d2_eq w
+end BC.GenFuncs.Serpent
+
+namespace BC.GenFuncs.Serpent
+open BC.Gen.Fn
+theorem C08.src_serpent_sbox_d3_eq (w : BC.Serpent.Words) :
+    serpent_sbox_d3 w.w0 w.w1 w.w2 w.w3 = tup (BC.Serpent.sboxD3 w) :=
+  _root_.BC.GenFuncs.Serpent.sbox_d3_eq w
+end BC.GenFuncs.Serpent
+
+namespace BC.GenFuncs.Serpent
+open BC.Gen.Fn
+theorem C08.src_serpent_sbox_d4_eq (w : BC.Serpent.Words) :
+    serpent_sbox_d4 w.w0 w.w1 w.w2 w.w3 = tup (BC.Serpent.sboxD4 w) :=
+  _root_.BC.GenFuncs.Serpent.sbox_d4_eq w
+end BC.GenFuncs.Serpent
+
+namespace BC.GenFuncs.Serpent
+open BC.Gen.Fn
+theorem C08.src_serpent_sbox_d5_eq (w : BC.Serpent.Words) :
+    serpent_sbox_d5 w.w0 w.w1 w.w2 w.w3 = tup (BC.Serpent.sboxD5 w) :=
+  _root_.BC.GenFuncs.Serpent.sbox_d5_eq w
+end BC.GenFuncs.Serpent
+
+namespace BC.GenFuncs.Serpent
+open BC.Gen.Fn
+theorem C08.src_serpent_sbox_d6_eq (w : BC.Serpent.Words) :
+    serpent_sbox_d6 w.w0 w.w1 w.w2 w.w3 = tup (BC.Serpent.sboxD6 w) :=
+  _root_.BC.GenFuncs.Serpent.sbox_d6_eq w
+end BC.GenFuncs.Serpent
+
+namespace BC.GenFuncs.Serpent
+open BC.Gen.Fn
+theorem C08.src_serpent_sbox_d7_eq (w : BC.Serpent.Words) :
+    serpent_sbox_d7 w.w0 w.w1 w.w2 w.w3 = tup (BC.Serpent.sboxD7 w) :=
+  _root_.BC.GenFuncs.Serpent.sbox_d7_eq w
+end BC.GenFuncs.Serpent
+
+namespace BC.GenFuncs.Serpent
+open BC.Gen.Fn
+theorem C08.src_serpent_linear_transform_eq (w : BC.Serpent.Words) :
+    serpent_linear_transform w.w0 w.w1 w.w2 w.w3 = tup (BC.Serpent.linearTransform w) :=
+  _root_.BC.GenFuncs.Serpent.linear_transform_eq w
+end BC.GenFuncs.Serpent
+
+namespace BC.GenFuncs.Serpent
+open BC.Gen.Fn
+theorem C08.src_serpent_linear_transform_inv_eq (w : BC.Serpent.Words) :
+    serpent_linear_transform_inv w.w0 w.w1 w.w2 w.w3 = tup (BC.Serpent.linearTransformInv w) :=
+  _root_.BC.GenFuncs.Serpent.linear_transform_inv_eq w
+end BC.GenFuncs.Serpent
+
+namespace BC.GenFuncs.Serpent
+open BC.Gen.Fn
+theorem C08.src_serpent_xor_eq (a k : BC.Serpent.Words) :
+    serpent_xor a.w0 a.w1 a.w2 a.w3 k.w0 k.w1 k.w2 k.w3 = tup (BC.Serpent.xor a k) :=
+  _root_.BC.GenFuncs.Serpent.xor_eq a k
+end BC.GenFuncs.Serpent
+
+namespace BC.GenFuncs.Serpent
+open BC.Gen.Fn
+theorem C08.src_serpent_read_words_eq (b : BitVec 128) :
+    serpent_read_words b = tup (BC.Serpent.readWords b) :=
+  _root_.BC.GenFuncs.Serpent.read_words_eq b
+end BC.GenFuncs.Serpent
+
+namespace BC.GenFuncs.Serpent
+open BC.Gen.Fn
+theorem C08.src_serpent_write_words_eq (w : BC.Serpent.Words) :
+    serpent_write_words w.w0 w.w1 w.w2 w.w3 = BC.Serpent.writeWords w :=
+  _root_.BC.GenFuncs.Serpent.write_words_eq w
+end BC.GenFuncs.Serpent
 
 namespace BC.GenTables
 open BC.Gen
